@@ -124,6 +124,169 @@ let c03_run () =
   Printf.printf "readback=%s\n" (if Buffer.length rb = 0 then "-" else Buffer.contents rb);
   Printf.printf "tags=%s\n" (String.concat "," (List.sort compare (Hashtbl.fold (fun k () a -> k :: a) tags [])))
 
+
+(* ---- lexicon requests (C01 C04 C11 C13) ---- *)
+exception Bad of string
+
+let builtin_accessor_enum = [
+  "void","Void"; "bool","Bool"; "char","Char"; "schar","Schar"; "uchar","Uchar"; "wchar_t","Wchar_t";
+  "char8_t","Char8_t"; "char16_t","Char16_t"; "char32_t","Char32_t"; "short","Short"; "ushort","Ushort";
+  "int","Int"; "uint","Uint"; "long","Long"; "ulong","Ulong"; "long_long","Long_long";
+  "ulong_long","Ulong_long"; "float","Float"; "double","Double"; "long_double","Long_double";
+  "ellipsis","Ellipsis"; "typename","Typename"; "class","Class"; "union","Union"; "enum","Enum";
+  "namespace","Namespace" ]
+
+let index_of x l =
+  let rec go i = function [] -> None | y :: r -> if y = x then Some i else go (i + 1) r in go 0 l
+
+let fundamental = List.map str G.lex_fundamental
+let builtin_words = List.map int_of_nat G.lex_builtin_words
+
+let builtin_row (acc : string) : int =
+  match List.assoc_opt acc builtin_accessor_enum with
+  | Some e -> (match index_of e fundamental with Some i -> i | None -> raise (Bad ("no builtin " ^ acc)))
+  | None -> raise (Bad ("unknown constant " ^ acc))
+
+let symconst = ["false", 0; "true", 1; "nullptr", 2; "default", 3; "delete", 4]
+
+let rec lex_constant (n : string) : G.nid =
+  match n with
+  | "nulltype" -> G.NullType | "c_link" -> G.CLink | "cxx_link" -> G.CxxLink
+  | "natural" -> G.NaturalXfer | "natural_cc" -> G.NaturalCC | "empty_string" -> G.StrEmpty
+  | _ when List.mem_assoc n symconst -> G.SymConst (nat_of_int (List.assoc n symconst))
+  | _ when String.length n > 7 && String.sub n 0 7 = "nameof:" ->
+    let b = builtin_row (String.sub n 7 (String.length n - 7)) in
+    G.WordId (nat_of_int (List.nth builtin_words b))
+  | _ when String.length n > 8 && String.sub n 0 8 = "symname:" ->
+    let c = String.sub n 8 (String.length n - 8) in
+    if not (List.mem_assoc c symconst) then raise (Bad "not a symbol");
+    G.WordId (G.ix_of (coq_string c))
+  | _ -> G.Builtin (nat_of_int (builtin_row n))
+
+let lex_run () =
+  let tbl = ref [] in
+  let results : G.nid option array ref = ref (Array.make 1024 None) in
+  let nres = ref 0 in
+  let push r =
+    if !nres >= Array.length !results then begin
+      let a = Array.make (2 * Array.length !results) None in
+      Array.blit !results 0 a 0 !nres; results := a end;
+    !results.(!nres) <- r; incr nres in
+  let first : (G.nid, int) Hashtbl.t = Hashtbl.create 4096 in
+  let operand (tok : string) : G.nid =
+    if tok = "" then raise (Bad "empty operand");
+    match tok.[0] with
+    | '%' -> let k = int_of_string (String.sub tok 1 (String.length tok - 1)) in
+      if k >= !nres then raise (Bad "operand refers to a line without an answer");
+      (match !results.(k) with Some n -> n | None -> raise (Bad "operand refers to a line without an answer"))
+    | '$' -> lex_constant (String.sub tok 1 (String.length tok - 1))
+    | '@' -> let k = int_of_string (String.sub tok 2 (String.length tok - 2)) in
+      let base = match tok.[1] with 't' -> 0 | 'e' -> 8 | 'm' -> 16 | 'l' -> 24 | _ -> raise (Bad "bad operand") in
+      G.Ext (nat_of_int (base + k))
+    | _ -> raise (Bad ("bad operand " ^ tok)) in
+  let word tok =
+    if String.length tok < 2 || String.sub tok 0 2 <> "x:" then raise (Bad "bad word");
+    let h = String.sub tok 2 (String.length tok - 2) in
+    if h = "-" then [] else List.init (String.length h / 2) (fun i -> n_of_int (int_of_string ("0x" ^ String.sub h (2 * i) 2))) in
+  let seq tok =
+    let inner = String.sub tok 1 (String.length tok - 2) in
+    if inner = "" then [] else List.map operand (String.split_on_char ',' inner) in
+  let opt a i = if List.length a > i && List.nth a i <> "-" then Some (operand (List.nth a i)) else None in
+  let step r = let (m, o) = G.lex_step !tbl r in tbl := m; o in
+  let key_of n = G.lex_key_of !tbl n in
+  let is_kind kind n =
+    (* static typing of the C++ interface, as far as the model can tell: only used to refuse ill-typed scripts *)
+    ignore kind; ignore n; true in
+  ignore is_kind;
+  let lineno = ref 0 in
+  (try while true do
+    let line = input_line stdin in
+    let a = List.filter (fun w -> w <> "") (String.split_on_char ' ' line) in
+    let msg, res =
+      try
+        let arg i = List.nth a i in
+        let ident o = match o with
+          | Some n -> if not (Hashtbl.mem first n) then Hashtbl.replace first n !lineno;
+            ("#" ^ string_of_int (Hashtbl.find first n), Some n)
+          | None -> ("refused:logic_error", None) in
+        (match a with
+         | [] -> ("skip", None)
+         | "const" :: n :: _ -> ident (Some (lex_constant n))
+         | "pointer" :: _ -> ident (step (G.RPointer (operand (arg 1))))
+         | "reference" :: _ -> ident (step (G.RReference (operand (arg 1))))
+         | "rvalue_reference" :: _ -> ident (step (G.RRvalueRef (operand (arg 1))))
+         | "array" :: _ -> ident (step (G.RArray (operand (arg 1), operand (arg 2))))
+         | "qualified" :: _ -> ident (step (G.RQualified (n_of_int (int_of_string (arg 1)), operand (arg 2))))
+         | "function" :: _ -> ident (step (G.RFunction (operand (arg 1), operand (arg 2), opt a 3, opt a 4)))
+         | "product" :: _ -> ident (step (G.RProduct (seq (arg 1))))
+         | "sum" :: _ -> ident (step (G.RSum (seq (arg 1))))
+         | "productw" :: _ -> ident (step (G.RProductW (seq (arg 1))))
+         | "sumw" :: _ -> ident (step (G.RSumW (seq (arg 1))))
+         | "forall" :: _ -> ident (step (G.RForall (operand (arg 1), operand (arg 2))))
+         | "ptr_to_member" :: _ -> ident (step (G.RPtrToMember (operand (arg 1), operand (arg 2))))
+         | "tor" :: _ -> ident (step (G.RTor (operand (arg 1), operand (arg 2))))
+         | "as_type" :: _ -> ident (step (G.RAsType (operand (arg 1), opt a 2)))
+         | "as_type_id" :: _ -> ident (step (G.RAsTypeId (operand (arg 1))))
+         | "transfer" :: _ -> ident (step (G.RTransfer (operand (arg 1), operand (arg 2))))
+         | "transfer_l" :: _ -> ident (step (G.RTransferL (operand (arg 1))))
+         | "transfer_c" :: _ -> ident (step (G.RTransferC (operand (arg 1))))
+         | "string" :: _ -> ident (step (G.RString (word (arg 1))))
+         | "identifier" :: _ -> ident (step (G.RIdentifier (operand (arg 1))))
+         | "identifier_w" :: _ ->
+           (match step (G.RString (word (arg 1))) with Some s -> ident (step (G.RIdentifier s)) | None -> ident None)
+         | "operator" :: _ -> ident (step (G.ROperator (operand (arg 1))))
+         | "suffix" :: _ -> ident (step (G.RSuffix (operand (arg 1))))
+         | "conversion" :: _ -> ident (step (G.RConversion (operand (arg 1))))
+         | "ctor_name" :: _ -> ident (step (G.RCtorName (operand (arg 1))))
+         | "dtor_name" :: _ -> ident (step (G.RDtorName (operand (arg 1))))
+         | "guide_name" :: _ -> ident (step (G.RGuideName (operand (arg 1))))
+         | "template_id" :: _ -> ident (step (G.RTemplateId (operand (arg 1), operand (arg 2))))
+         | "logogram" :: _ -> ident (step (G.RLogogram (operand (arg 1))))
+         | "symbol" :: _ -> ident (step (G.RSymbol (operand (arg 1), operand (arg 2))))
+         | "label" :: _ -> ident (step (G.RLabel (operand (arg 1))))
+         | "this" :: _ -> ident (step (G.RThis (operand (arg 1))))
+         | "literal" :: _ -> ident (step (G.RLiteral (operand (arg 1), operand (arg 2))))
+         | "linkage" :: _ -> ident (step (G.RLinkage (operand (arg 1))))
+         | "linkage_w" :: _ ->
+           let w = word (arg 1) in
+           let s = List.map int_of_n w in
+           if s = [67] then ident (Some G.CLink) else if s = [67; 43; 43] then ident (Some G.CxxLink)
+           else (match step (G.RString w) with Some s -> ident (step (G.RLinkage s)) | None -> ident None)
+         | "convention" :: _ -> ident (step (G.RConvention (operand (arg 1))))
+         | "decltype_null" :: _ -> ident (step G.RDecltypeNull)
+         | "q_main" :: _ ->
+           (match key_of (operand (arg 1)) with Some (G.KQual (_, t)) -> ident (Some t) | _ -> raise (Bad "not qualified"))
+         | "q_quals" :: _ ->
+           (match key_of (operand (arg 1)) with Some (G.KQual (q, _)) -> ("value:" ^ string_of_int (int_of_n q), None) | _ -> raise (Bad "not qualified"))
+         | "is_qualified" :: _ ->
+           (match key_of (operand (arg 1)) with Some (G.KQual _) -> ("value:1", None) | _ -> ("value:0", None))
+         | "xfer_eq" :: _ ->
+           (match G.lex_xfer_val !tbl (operand (arg 1)), G.lex_xfer_val !tbl (operand (arg 2)) with
+            | Some x, Some y -> ((if x = y then "value:1" else "value:0"), None) | _ -> raise (Bad "ill-typed operand"))
+         | "link_eq" :: _ ->
+           (match G.lex_linkage_word !tbl (operand (arg 1)), G.lex_linkage_word !tbl (operand (arg 2)) with
+            | Some x, Some y -> ((if x = y then "value:1" else "value:0"), None) | _ -> raise (Bad "ill-typed operand"))
+         | "cc_eq" :: _ ->
+           (match G.lex_cc_word !tbl (operand (arg 1)), G.lex_cc_word !tbl (operand (arg 2)) with
+            | Some x, Some y -> ((if x = y then "value:1" else "value:0"), None) | _ -> raise (Bad "ill-typed operand"))
+         | "name_of" :: _ ->
+           (match operand (arg 1) with
+            | G.Builtin b -> ident (Some (G.WordId (nat_of_int (List.nth builtin_words (int_of_nat b)))))
+            | _ -> raise (Bad "name_of: only builtins in the model"))
+         | "string_of" :: _ ->
+           (match operand (arg 1) with
+            | G.WordId k -> ident (Some (G.StrKnown k))
+            | n -> (match key_of n with Some (G.K1 (G.CIdentifier, s)) -> ident (Some s) | _ -> raise (Bad "not an identifier")))
+         | "builtin" :: _ -> (match operand (arg 1) with G.Builtin _ -> ("value:1", None) | _ -> ("value:0", None))
+         | op :: _ -> raise (Bad ("unknown request " ^ op)))
+      with Bad m -> ("bad:" ^ m, None)
+         | Failure m -> ("bad:" ^ m, None)
+         | Invalid_argument m -> ("bad:" ^ m, None) in
+    push res;
+    Printf.printf "%d = %s\n" !lineno msg;
+    incr lineno
+  done with End_of_file -> ())
+
 let iter_lines f =
   try while true do f (input_line stdin) done with End_of_file -> ()
 
@@ -137,4 +300,5 @@ let () =
       G.c06_rows
   | [| _; "c10" |] -> iter_lines c10_line
   | [| _; "c03" |] -> c03_run ()
+  | [| _; "lex" |] -> lex_run ()
   | _ -> prerr_endline "usage: gen_driver <mode>"; exit 2
